@@ -1,7 +1,11 @@
+mod c16;
+mod c17;
+mod c18;
+mod c19;
 mod c20;
 mod c21;
 mod util;
 
 fn main() {
-    vmon::run_main(&[("C20", c20::run), ("C21", c21::run)]);
+    vmon::run_main(&[("C16", c16::run), ("C17", c17::run), ("C18", c18::run), ("C19", c19::run), ("C20", c20::run), ("C21", c21::run)]);
 }
